@@ -9,6 +9,8 @@
      pmeta <meta>                     → err | ok <tenant> <public|restricted> <roles> <groups> <principals>
      nctx <ctx5>                      → none | some <tenant> <subject|~> <roles> <groups>
      eval <meta> <ctx5>               → allow | deny:cross-tenant | deny:missing-metadata | deny:restricted
+     wsset                            → code points below U+3100 that `isWs` accepts (none above: `isWs_bound`)
+     lowerset                         → n:m for the code points below U+3100 that `lowerChar` changes (none above: `lowerChar_spec`)
      reset                            → ok        (forget all frames)
      frame <id> <meta>                → ok        (frame id ↦ metadata)
      apply <audit|enforce> <ctx5> <ids>          → err <e> | ok <id:rank,…> <allowed> <denied> <cross> <missing>
@@ -151,6 +153,11 @@ def step (st : St) (ws : List String) : St × String :=
   | ["eval", m, p, t, s, r, g] => match parseMeta m, parseCtx p t s r g with
     | some m, some c => (st, showDecision (evaluate m (normalizeCtx c)))
     | _, _ => (st, "bad-op")
+  | ["wsset"] =>
+    (st, ",".intercalate (((List.range 0x3100).filter (fun n => isWs (Char.ofNat n))).map toString))
+  | ["lowerset"] =>
+    (st, ",".intercalate (((List.range 0x3100).filter (fun n => lowerChar (Char.ofNat n) != Char.ofNat n)).map
+      (fun n => s!"{n}:{(lowerChar (Char.ofNat n)).toNat}")))
   | ["reset"] => ([], "ok")
   | ["frame", id, m] => match id.toNat?, parseMeta m with
     | some id, some m => ((id, m) :: st.filter (fun p => p.1 != id), "ok")
